@@ -6,7 +6,8 @@
     /\ (forall x, wfd c x = true -> fits c x = true -> esize c x = len (enc c x))
     /\ (forall bs x r r', dec c bs = Value x r -> fits c x = true -> dec c (enc c x ++ r') = Value x r'). *)
 From Coq Require Import ZArith List.
-From VB Require Import Gen.Consts Serde.StreamDefs Serde.CodecSpec Serde.StreamProofs Serde.EntityDefs Serde.Theorems Serde.FitsProofs Serde.StoredDefs Serde.StoredTheorems Serde.FitsMerkle Serde.Refuted Serde.Ids Serde.Memo Serde.Counting Mempool.CountDefs Mempool.CountProofs.
+From VB Require Import Gen.Consts Serde.StreamDefs Serde.CodecSpec Serde.StreamProofs Serde.EntityDefs Serde.Theorems Serde.FitsProofs Serde.StoredDefs Serde.StoredTheorems Serde.FitsMerkle Serde.Refuted Serde.Ids Serde.Memo Serde.Counting.
+From VB Require Mempool.CountDefs Mempool.CountProofs.
 Local Open Scope Z_scope.
 
 Theorem C11_single_be_int64 : c11_ok c_single_be64.
@@ -214,11 +215,11 @@ Proof. exact counting_estimate_is_popdata_esize. Qed.
 Print Assumptions C11_counting_estimate_is_popdata_esize.
 
 Theorem C11_counting_figure_is_encoded_size : forall addr_norm, addr_norm_sound addr_norm -> forall p c r,
-  agrees c r -> wfd (c_popdata addr_norm) p = true -> StreamDefs.fits (c_popdata addr_norm) p = true ->
-  List.map Z.of_N (k_vbk r) = List.map (esize c_vbkblock) (pop_context p) ->
-  List.map Z.of_N (k_vtb r) = List.map (esize (c_vtb addr_norm)) (pop_vtbs p) ->
-  List.map Z.of_N (k_atv r) = List.map (esize (c_atv addr_norm)) (pop_atvs p) ->
-  (CountDefs.len (k_vbk r) < 2 ^ 63)%N -> (CountDefs.len (k_vtb r) < 2 ^ 63)%N -> (CountDefs.len (k_atv r) < 2 ^ 63)%N ->
-  Z.of_N (popsize c) = StreamDefs.len (enc (c_popdata addr_norm) p).
+  CountProofs.agrees c r -> wfd (c_popdata addr_norm) p = true -> StreamDefs.fits (c_popdata addr_norm) p = true ->
+  List.map Z.of_N (CountDefs.k_vbk r) = List.map (esize c_vbkblock) (pop_context p) ->
+  List.map Z.of_N (CountDefs.k_vtb r) = List.map (esize (c_vtb addr_norm)) (pop_vtbs p) ->
+  List.map Z.of_N (CountDefs.k_atv r) = List.map (esize (c_atv addr_norm)) (pop_atvs p) ->
+  (CountDefs.len (CountDefs.k_vbk r) < 2 ^ 63)%N -> (CountDefs.len (CountDefs.k_vtb r) < 2 ^ 63)%N -> (CountDefs.len (CountDefs.k_atv r) < 2 ^ 63)%N ->
+  Z.of_N (CountDefs.popsize c) = StreamDefs.len (enc (c_popdata addr_norm) p).
 Proof. exact counting_figure_is_encoded_size. Qed.
 Print Assumptions C11_counting_figure_is_encoded_size.
